@@ -153,13 +153,15 @@ func genC20(g *gen) {
 				return v
 			}
 			add(fmt.Sprintf("enew %s %s C %s", dt, ints(sh), eng))
-		case "sliced":
+		case "sliced", "stepped":
 			if size(sh) > 1 {
 				big := make([]int, len(sh))
 				spec := make([]string, len(sh))
 				for i, d := range sh {
 					if d == 1 {
 						big[i], spec[i] = 1, "n"
+					} else if layout == "stepped" {
+						big[i], spec[i] = 2*d, fmt.Sprintf("0:%d:2", 2*d)
 					} else {
 						big[i], spec[i] = d+1, fmt.Sprintf("1:%d", d+1)
 					}
@@ -251,6 +253,27 @@ func genC20(g *gen) {
 				}
 				g.emit("vset=2", mkc(), mkc(), mkc(), "fma $0 $1 $2", "dump $3", "dump $0", "dump $1", "dump $2")
 				g.emit("vset=2", mkc(), mkc(), "fma $0 #k3 $1", "dump $2", "dump $0", "dump $1")
+			}
+		}
+		// inner products (the specialised engines have their own `Inner`): every vector form x layout, strided row and
+		// column vectors and lazily transposed ones included; function and method
+		for _, fa := range [][]int{{4}, {1, 4}, {4, 1}} {
+			for _, fb := range [][]int{{4}, {1, 4}, {4, 1}} {
+				for _, la := range []string{"contig", "sliced", "stepped", "lazyT"} {
+					for _, lb := range []string{"contig", "stepped", "lazyT"} {
+						if !g.thorough() && (len(fa)+len(fb)+len(la)+len(lb)+fa[0])%2 == 1 {
+							continue
+						}
+						var steps []string
+						nv := 0
+						stdDt = g.r.pick([]string{"f64", "f32"})
+						steps = append(steps, "vset=2")
+						a := mk(&steps, &nv, eng, fa, la)
+						b := mk(&steps, &nv, eng, fb, lb)
+						steps = append(steps, fmt.Sprintf("la inner %s $%d $%d", g.r.pick([]string{"fn", "meth"}), a, b), fmt.Sprintf("dump $%d", a), fmt.Sprintf("dump $%d", b), "dump $0")
+						g.emit(steps...)
+					}
+				}
 			}
 		}
 		// mismatched shapes must be refused by every engine
